@@ -12,7 +12,7 @@ MNEMONICS = ["adc", "add", "and", "bit", "call", "ccf", "cp", "cpd", "cpdr", "cp
 REGS = ["a", "b", "c", "d", "e", "h", "l", "ixh", "ixl", "iyh", "iyl", "i", "r", "af", "bc", "de", "hl", "sp", "ix", "iy", "af'"]
 FLAGS = ["nz", "z", "nc", "po", "pe", "p", "m"]
 INDS = ["hl", "bc", "de", "sp", "c", "ix", "iy"]
-VALUES = [0, 1, 2, 7, 8, 0x10, 0x38, 0x42, 0x7F, 0x80, 0xFF, 0x100, 0x1234, 0x7FFF, 0x8000, 0xFFFF, 0x10000, -1, -128, 0x7FFFFFFF]
+VALUES = [0, 1, 2, 3, 6, 7, 8, 9, 0x10, 0x38, 0x39, 0x40, 0x42, 0x7F, 0x80, 0xFF, 0x100, 0x1234, 0x7FFF, 0x8000, 0xFFFF, 0x10000, -1, -8, -64, -128, -129, 0x7FFFFFFF, -0x80000000]
 
 
 def atoms(v):
@@ -22,7 +22,7 @@ def atoms(v):
 
 def run(tier, seed, arch="z80", prop="C01", mnemonics=MNEMONICS, atoms_fn=atoms, values=VALUES):
     chk = C.Check(prop, tier, seed)
-    C.std_setup(chk)
+    C.std_setup(chk, forms_arch=arch)
     rng = random.Random(seed)
     # pass 1: every shape (0..2 operands) at two probe values, known now
     probe = []
@@ -42,11 +42,17 @@ def run(tier, seed, arch="z80", prop="C01", mnemonics=MNEMONICS, atoms_fn=atoms,
     # pass 2: shapes that are live for some value (accepted by the Spec at a probe value, or any
     # shape with a value operand of an accepted mnemonic position) x value sets x known/later x origins
     live = {}
-    spec_lines = [f"{c['id']}\tspec\t{arch}\t{c['pc']}\t{c['mn']}\t{c['ops']}\t1" for c in cases]
+    # a value-carrying shape is live when the Spec accepts it for ANY value of the value set (probing
+    # at one or two values would never reach selectors such as `rst n`, `im n`, `bit n,r`)
+    vshapes = [(mn, at) for (mn, at) in probe if any(len(a) > 2 for a in at) and at[[len(a) > 2 for a in at].index(True)][2] == 1]
+    spec_lines = []
+    for k, (mn, at) in enumerate(vshapes):
+        for j, v in enumerate(values):
+            ops = isa.mk_case(rng, mn, [a if len(a) < 3 else (a[0], a[1], v) for a in at], True, 0x1000)["ops"]
+            spec_lines.append(f"s{k}_{j}\tspec\t{arch}\t4096\t{mn}\t{ops}\t1")
     spec = C.run_model(spec_lines)
-    for (mn, at), c in zip(probe, cases):
-        sp = spec.get(c["id"], ["?"])
-        if sp and sp[0] == "OK" and any(len(a) > 2 for a in at):
+    for k, (mn, at) in enumerate(vshapes):
+        if any(spec.get(f"s{k}_{j}", ["?"])[0] == "OK" for j in range(len(values))):
             live[(mn, tuple((a[0], a[1]) for a in at))] = at
     cases2 = []
     origins = [0, 0x100, 0x7FFE, 0xFFF0] if tier == "thorough" else [0x100, 0xFFF0]
@@ -72,7 +78,8 @@ def run(tier, seed, arch="z80", prop="C01", mnemonics=MNEMONICS, atoms_fn=atoms,
         if mn in ("jr", "djnz"):
             for known in (True, False):
                 for pc in origins:
-                    for dist in list(range(-131, -124)) + [-2, -1, 0, 1, 2] + list(range(124, 132)) + ([d for d in range(-124, 124, 9)] if tier == "thorough" else []):
+                    far = [w + k for w in (0x10000, -0x10000, 0x20000) for k in (-130, -128, -2, 0, 3, 127, 129)]   # in range only modulo 64K
+                    for dist in list(range(-131, -124)) + [-2, -1, 0, 1, 2] + list(range(124, 132)) + far + ([d for d in range(-124, 124, 9)] if tier == "thorough" else []):
                         a3 = [(a[0], a[1], pc + 2 + dist) if len(a) > 2 else a for a in at]
                         cases2.append(isa.mk_case(rng, mn, a3, known, pc))
     if tier == "thorough":
